@@ -68,8 +68,20 @@ def sheet_case(draw, max_tasks=8):
     fields = draw(st.one_of(st.none(), st.lists(st.sampled_from(FIELDS), min_size=1, max_size=7)))
     theme = draw(st.one_of(st.none(), st.fixed_dictionaries({'level_colors': st.lists(st.sampled_from(THEME_COLORS), max_size=8)}),
                            st.fixed_dictionaries({'level_colors': st.lists(st.sampled_from(THEME_COLORS), max_size=8), 'header_color': st.sampled_from(THEME_COLORS)})))
-    return dict(spec=spec, recv=draw(st.sampled_from(['wbs', 'wbs-repr', 'task', 'task-repr', 'roots', 'children', 'query', 'tasks-list', 'all_children', 'predecessors', 'roots-repr'])),
-                of=draw(st.integers(0, 30)), fields=fields, children=draw(st.booleans()), theme=theme,
+    recv = draw(st.sampled_from(['wbs', 'wbs-repr', 'task', 'task-repr', 'roots', 'children', 'query', 'tasks-list', 'all_children', 'predecessors', 'roots-repr']))
+    of = draw(st.integers(0, 30))
+    if draw(st.integers(0, 4)) == 0:
+        # steer: a dependency list that spans several projects, printed with its link columns
+        recv = draw(st.sampled_from(['predecessors', 'successors', 'all_predecessors', 'all_successors']))
+        pick = m.order[of % len(m.order)]
+        other = [i for i in m.order if i != pick]
+        ext = [dict(id=100 + k, start='2026-01-01T00:00:00', end='2026-01-02T00:00:00', in_wbs=draw(st.booleans()),
+                    succ=[pick] if recv.endswith('predecessors') else [], xsucc_of=[pick] if recv.endswith('successors') else [],
+                    xpred=[draw(st.sampled_from(other))] if other and draw(st.booleans()) else []) for k in range(2)]
+        spec['ext'] = ext
+        fields = ['id', 'predecessors', 'successors'] + (draw(st.lists(st.sampled_from(FIELDS), max_size=2)))
+    return dict(spec=spec, recv=recv,
+                of=of, fields=fields, children=draw(st.booleans()), theme=theme,
                 fields_form=draw(st.sampled_from(['list', 'list', 'tuple', 'iterator', 'generator'])))
 
 
@@ -107,6 +119,11 @@ def check(case, exclude=True):
                 ext[e['id']].predecessors.append(objs[v_])
             except RuntimeError:
                 pass
+        for v_ in e.get('xsucc_of', []):
+            try:
+                objs[v_].successors.append(ext[e['id']])
+            except RuntimeError:
+                pass
     recv = case['recv']
     summaries = [i for i in m.order if not m.is_leaf(i)]
     pick = m.order[case['of'] % len(m.order)]
@@ -128,6 +145,9 @@ def check(case, exclude=True):
         target, given = objs[pick].all_children, list(objs[pick].all_children)
     elif recv == 'predecessors':
         target, given = objs[pick].predecessors, list(objs[pick].predecessors)
+    elif recv in ('successors', 'all_predecessors', 'all_successors'):
+        target = getattr(objs[pick], recv)
+        given = list(target)
     elif recv == 'roots-repr':
         target, given = w.roots, [objs[i] for i in m.roots]
     elif recv == 'query':
